@@ -60,12 +60,43 @@ def setNsSub : Nat → NsHeap → Nat → Nat → NsHeap
   | 0, H, _, _ => H
   | fuel + 1, H, n, r => (H.kids n).foldl (fun Hc c => setNsSub fuel Hc c r) (H.setNs n r)
 
+/-- `d1 == d2` of two Python dicts: the same keys with the same values, in any order (keys of a `Dict` are unique) -/
+def Dict.same (d1 d2 : Dict) : Bool := d1.length == d2.length && d1.all (fun kv => d2.get? kv.1 == some kv.2)
+
+/-- the body of `for prefix in nsmap:` in `Node.fix_nsmap` (node.py:121-124) for one binding of the parent's map -/
+def fixBind (n : Nat) (Hc : NsHeap) (kv : String × String) : NsHeap :=
+  -- `if prefix not in node.nsmap: node.nsmap = copy.deepcopy(node.nsmap)`
+  let Hd := if (Hc.nsmapOf n).has kv.1 then Hc
+            else (Hc.alloc (Hc.nsmapOf n)).1.setNs n (Hc.alloc (Hc.nsmapOf n)).2
+  -- `node.nsmap[prefix] = nsmap[prefix]`: in place, into whatever dict object the node holds now
+  Hd.setCell (Hd.ns n) ((Hd.cell (Hd.ns n)).set kv.1 kv.2)
+
+/-- `Node.fix_nsmap(node, nsmap, nsmap_id)` (node.py:104-132).  `par` is the reference of the `nsmap` argument (the
+    parent's dict object; `none` at the entry call), `nsid` the `nsmap_id` argument. -/
+def fixNs : Nat → NsHeap → Nat → Option Nat → Option Nat → NsHeap
+  | 0, H, _, _, _ => H
+  | fuel + 1, H, n, par, nsid =>
+    -- `if nsmap is not None: if nsmap_id is None: nsmap_id = id(node.nsmap)`
+    let id : Option Nat := match par with
+      | none => nsid
+      | some _ => (match nsid with | none => some (H.ns n) | some i => some i)
+    let H1 := match par with
+      | none => H
+      | some r =>
+        if (H.cell r).same (H.nsmapOf n) then H.setNs n r          -- `node.nsmap = nsmap`: share the parent's object
+        else (H.cell r).foldl (fixBind n) H
+    (H.kids n).foldl (fun Hc c =>
+      -- `if id(child.nsmap) == nsmap_id:` (never true while `nsmap_id` is None)
+      if some (Hc.ns c) = id then fixNs fuel (Hc.setNs c (Hc.ns n)) c (some (Hc.ns n)) id
+      else fixNs fuel Hc c (some (Hc.ns n)) none) H1
+
 inductive NsOp where
   | attach (par c : Nat)
   | declare (n : Nat) (p u : String)
   | remove (n : Nat) (p : String)
   | setNsmap (n : Nat) (d : Dict)
   | share (n m : Nat)            -- n.set_nsmap(m.nsmap): the very same dict object on two subtrees
+  | fix (n : Nat)                -- Node.fix_nsmap(n)
   deriving Repr
 
 def nsStep (fuel : Nat) (H : NsHeap) : NsOp → NsHeap
@@ -74,5 +105,6 @@ def nsStep (fuel : Nat) (H : NsHeap) : NsOp → NsHeap
   | .remove n p => removeNs fuel H n p none
   | .setNsmap n d => let (Ha, r) := H.alloc d; setNsSub fuel Ha n r
   | .share n m => setNsSub fuel H n (H.ns m)
+  | .fix n => fixNs fuel H n none none
 
 end Metapype
